@@ -46,6 +46,8 @@ func (o cOp) String() string {
 		return fmt.Sprintf("getRefs(S%d)", o.Subj)
 	case "upload", "uploadChunked":
 		return fmt.Sprintf("%s(%d)", o.Kind, o.N)
+	case "mount":
+		return fmt.Sprintf("mount(blob %d from %s)", o.N, o.Tag)
 	}
 	return o.Kind
 }
@@ -171,6 +173,22 @@ func (u *cUniverse) execOp(srv *olareg.Server, o cOp) (int, string, string) {
 		if r.code == 202 {
 			r = doReq(srv, "PUT", loc+"&digest="+url.QueryEscape(dig("sha256", b)), nil, nil)
 		}
+	case "mount":
+		// cross-repository mount; the source is the target itself, a repository that exists, or one that does not;
+		// blob 0-5 = what "upload" pushes (may or may not be there yet), 6-7 = never pushed anywhere
+		b := []byte(fmt.Sprintf("blob-%d", o.N))
+		from := o.Tag
+		if from == "self" {
+			from = u.repo
+		}
+		if strings.HasPrefix(from, "fresh") && o.N%2 == 0 {
+			b = []byte("first-" + from[5:]) // what newRepoPush puts there: a mount that can succeed
+		}
+		r = doReq(srv, "POST", base+"/blobs/uploads/?mount="+dig("sha256", b)+"&from="+url.QueryEscape(from), nil, nil)
+		if r.code == 202 {
+			// fell back to an upload session: finish it
+			r = doReq(srv, "PUT", r.hdr.Get("Location")+"&digest="+url.QueryEscape(dig("sha256", b)), b, nil)
+		}
 	case "collect":
 		_ = srv.VerifGC(u.repo)
 		r.code = 200
@@ -246,6 +264,9 @@ func genCProgram(t *rapid.T, kinds []string, maxClients, maxOps int) cProgram {
 				o.Subj = rapid.IntRange(0, 1).Draw(t, "subject")
 			case "upload", "uploadChunked":
 				o.N = rapid.IntRange(0, 5).Draw(t, "blob")
+			case "mount":
+				o.N = rapid.IntRange(0, 7).Draw(t, "blob")
+				o.Tag = rapid.SampledFrom([]string{"self", "self", "fresh0", "fresh1", "nosuchrepo"}).Draw(t, "from")
 			case "newRepoPush", "newRepoRead", "newRepoTags":
 				o.N = rapid.IntRange(0, 2).Draw(t, "freshRepo")
 			case "getRefsFiltered":
